@@ -68,6 +68,10 @@ pub struct KnownFinding {
     /// part of the violation key contains exactly this atom
     #[serde(default)]
     pub class_atom: Option<String>,
+    /// like `class_atom`, but the atom only has to START with this text
+    /// (e.g. "ref>integer:" for every integer format)
+    #[serde(default)]
+    pub class_atom_prefix: Option<String>,
     /// "known" | "fixed"
     pub status: String,
     #[serde(default)]
@@ -104,6 +108,9 @@ pub fn match_known<'a>(
     known.iter().find(|k| {
         if k.status != "known" || k.property != property {
             return false;
+        }
+        if let (Some(prefix), Some(c)) = (&k.class_atom_prefix, &class) {
+            return k.key == head && c.starts_with(prefix.as_str());
         }
         match (&k.class_atom, &class) {
             (Some(atom), Some(c)) => k.key == head && crate::model::class_atoms(c).contains(atom),
